@@ -24,10 +24,7 @@ Theorem C13_premises :
   locks_whole_body agg_composite aggregation_methods = true /\
   lockset_ok agg_thr agg_multi aggregation_accesses = true /\
   guarded_by aggregation_f_mutex aggregation_accesses = true.
-Proof.
-  pose proof agg_premises_hold as H. unfold agg_premises in H.
-  apply andb_true_iff in H. destruct H as (H & H3). apply andb_true_iff in H. tauto.
-Qed.
+Proof. exact agg_premises_split. Qed.
 Print Assumptions C13_premises.
 
 (* for all threads, programs, schedules, cuts into micro-steps and sequential semantics: state and
